@@ -435,6 +435,8 @@ def run(ctx):
         ctx.violation("correspondence-broken", "compiler-produced assembly is not of the form wf_asm assumes "
                       "(label_is_jumpdest hypothesis not met)", describe(c))
     for c in (cc + sc):
+        if c.get("model_ok") is False and __import__("os").environ.get("C16_DEBUG"):
+            ctx.log("MISMATCH", c["name"], c["evm"], [repr(x) for x in c["asm"]][:12], c.get("why"))
         if c.get("model_ok") is False and not found:
             d = describe(c)
             d["mismatch"] = c.get("why")
